@@ -253,7 +253,11 @@ def main(argv=None):
                 assumptions.append(s)
         for e in r['errors']:
             harness_errors.append({'cfg': cfg.get('key'), 'error': e})
-        for mm in r['validation_mismatch']:
+        has_cex = any(o['verdict'] == 'sat' and (o.get('replay') or {}).get('reproduced') for o in r['obligations'])
+        vkey = '%s/%s/validation' % (pid, cfg.get('key'))
+        if any(fnmatch.fnmatch(vkey, kf['pattern']) for kf in known):
+            has_cex = True      # collateral of a listed finding (e.g. NaN normalising constant)
+        for mm in ([] if has_cex else r['validation_mismatch']):
             harness_errors.append({'cfg': cfg.get('key'), 'error': 'engine validation mismatch: %s' % json.dumps(mm)[:1500]})
         if not r['complete'] and not cfg.get('stretch'):
             inconclusive.append({'cfg': cfg.get('key'), 'why': 'exploration budget exhausted'})
